@@ -11,7 +11,7 @@ use super::super::state::{DelayState, PortState, SlaveState, SyncState};
 use super::super::*;
 use crate::datastructures::common::{TimeInterval, WireTimestamp};
 use crate::datastructures::messages::{
-    DelayRespMessage, FollowUpMessage, Header, PDelayRespFollowUpMessage, PDelayRespMessage, SyncMessage,
+    DelayRespMessage, FollowUpMessage, Header, Message, MessageBody, PDelayRespFollowUpMessage, PDelayRespMessage, SyncMessage,
 };
 use crate::time::Interval;
 use crate::verif_gen::*;
@@ -133,14 +133,13 @@ fn check_against_spec(pre: &PortView, mut want: PortView, meas: Option<Measureme
     match meas {
         Some(m) => {
             // exactly one measurement, with exactly the specified values
-            assert!(post.filter.n_meas == pre.filter.n_meas + 1);
-            // (after a Faulty -> Listening recovery the port holds a fresh filter; the measurement went to the old one)
+            assert!(post.filter.last == Some(m));
             if want.n_filter_new == pre.n_filter_new {
-                assert!(post.filter.last == Some(m));
                 want.filter = RecFilter { n_meas: pre.filter.n_meas + 1, last: Some(m), ..pre.filter };
             } else {
-                want.filter = post.filter;
-                assert!(post.filter.n_meas == 0 && post.filter.serial != pre.filter.serial);
+                // Faulty -> Listening recovery: the old filter is demobilized first, the measurement goes to the fresh one
+                assert!(post.filter.serial != pre.filter.serial);
+                want.filter = RecFilter { serial: post.filter.serial, n_meas: 1, n_update: 0, last: Some(m) };
             }
             // the filter may report a new mean delay and ask for an update timer; nothing else happens
             want.mean_delay = post.mean_delay;
@@ -376,6 +375,7 @@ fn c09_delay_resp() {
 #[kani::stub(PortActionIterator::from, PortActionIterator::verif_recording_from)]
 #[kani::stub(crate::time::Interval::as_core_duration, stub_as_core_duration)]
 #[kani::stub(core::time::Duration::mul_f64, stub_mul_f64)]
+#[kani::stub(Message::serialize, Message::verif_recording_serialize)]
 fn c09_send_e2e_delay_request() {
     let lock = ChkLock::new(any_instance_state(0));
     mk_port!(port, &lock, any_port_state(), Running);
@@ -403,10 +403,9 @@ fn c09_send_e2e_delay_request() {
         assert!(actions.n == 2 && actions.n_reset_delay_req == 1 && actions.n_send_event == 1);
         assert!(actions.ctx_kind == 1 && actions.ctx_id == id);
         let f = actions.event.unwrap();
-        assert!(!f.link_local && frame_well_formed(&f, 0x1));
-        let h = spec_frame(&f);
-        assert!(h.sequence_id == id && h.source == own);
-        assert!(h.sdo_id == u16::from(pre_inst.default_ds.sdo_id) && h.domain == pre_inst.default_ds.domain_number);
+        let (h, _b) = emitted_message(&f, 0x1);
+        assert!(!f.link_local && h.sequence_id == id && h.source_port_identity == own);
+        assert!(h.sdo_id == pre_inst.default_ds.sdo_id && h.domain_number == pre_inst.default_ds.domain_number);
     } else {
         // C08: end-to-end Delay_Req only by the slave port
         assert!(post == want && actions.n == 0);
@@ -454,6 +453,7 @@ fn p2p_setup_state() -> PortState {
 #[kani::stub(PortActionIterator::from, PortActionIterator::verif_recording_from)]
 #[kani::stub(crate::time::Interval::as_core_duration, stub_as_core_duration)]
 #[kani::stub(core::time::Duration::mul_f64, stub_mul_f64)]
+#[kani::stub(Message::serialize, Message::verif_recording_serialize)]
 fn c14_send_p2p_delay_request() {
     let lock = ChkLock::new(any_instance_state(0));
     mk_port!(port, &lock, p2p_setup_state(), Running);
@@ -483,10 +483,9 @@ fn c14_send_p2p_delay_request() {
     assert!(actions.n == 2 && actions.n_reset_delay_req == 1 && actions.n_send_event == 1);
     assert!(actions.ctx_kind == 2 && actions.ctx_id == id);
     let f = actions.event.unwrap();
-    assert!(f.link_local && frame_well_formed(&f, 0x2));
-    let h = spec_frame(&f);
-    assert!(h.sequence_id == id && h.source == own);
-    assert!(h.sdo_id == u16::from(pre_inst.default_ds.sdo_id) && h.domain == pre_inst.default_ds.domain_number);
+    let (h, _b) = emitted_message(&f, 0x2);
+    assert!(f.link_local && h.sequence_id == id && h.source_port_identity == own);
+    assert!(h.sdo_id == pre_inst.default_ds.sdo_id && h.domain_number == pre_inst.default_ds.domain_number);
 }
 
 /// transmit timestamp of the Pdelay_Req (t1): accepted only for the request in flight, once.
